@@ -262,8 +262,8 @@ func newFeatureBlockBuilders(nt *NamespaceTable, summary *Summary) FeatureBlockB
 		var points uint64
 		if c.Points > 0 {
 			points = c.Points
-		} else if c.PathPoints > 0 {
-			points = c.PathPoints
+		} else if c.PathPoints+c.RelationPoints > 0 {
+			points = c.PathPoints + c.RelationPoints
 		}
 		if points > 0 {
 			addFeatureBlockBuilder(builders, b6.FeatureTypePoint, ns, points, nt)
@@ -693,6 +693,7 @@ type Counts struct {
 	PathPoints      uint64
 	AreaPaths       uint64
 	RelationMembers uint64
+	RelationPoints  uint64
 }
 
 type NamespacedCounts struct {
@@ -796,6 +797,12 @@ func fillStringTableAndSummary(source ingest.FeatureSource, o *Options, strings 
 			for _, member := range feature.(*ingest.RelationFeature).Members {
 				c := summary.Counts.Namespace(member.ID.Namespace)
 				atomic.AddUint64(&c.AreaPaths, 1)
+				if member.ID.Type == b6.FeatureTypePoint {
+					// emitPoints records the relation against the point, which
+					// needs a point block for the namespace even if the file
+					// holds no point or path in it.
+					atomic.AddUint64(&c.RelationPoints, 1)
+				}
 			}
 		}
 		return nil
